@@ -147,17 +147,17 @@ def kernel_cases(rng, n_ops, quick, shapes=None, metrics=False, pz=0.1, neg=Fals
                         if o.index("m1") < o.index("m0") and o.index("k1") < o.index("k0"):
                             cases.append({"shape": name, "expr": expr, "ops": ops, "order": list(o), "style": "tf", "extents": ext, "zshape": 1,
                                           "tile": {"v": "m", "s": 2}, "tile2": {"v": "k", "s": 2}})
-            for _ in range(max(10, n_ops // 2)):
-                nc = rng.randint(12, 16)
+            for wi in range(max(10, n_ops // 2)):
+                nc = rng.randint(12, 16) if wi else 16
                 ext = {v: (nc if v in expr["out"] else 3) for v in vs}
                 def tr(ix):
                     if len(ix) == 1:
                         return {"k": "F", "e": [[c, {"k": "L", "v": rng.randint(1, 2)}] for c in range(ext[ix[0]]) if rng.random() < 0.6]}
                     return {"k": "F", "e": [[c, tr(ix[1:])] for c in range(ext[ix[0]]) if rng.random() < 0.8]}
                 ops = {f["t"]: tr(f["ix"]) for f in expr["facs"]}
-                if name in ("matvec", "reduce") and rng.random() < 0.7:
+                if name in ("matvec", "reduce") and (wi == 0 or rng.random() < 0.7):
                     # "staircase": the first pass of the reduction fills a dense low block of the output, the later passes add a few coordinates far beyond it
-                    rows = {m: {0: rng.randint(1, 2)} for m in range(rng.randint(9, 11))}
+                    rows = {m: {0: rng.randint(1, 2)} for m in range(rng.randint(9, 11) if wi else 11)}      # (the first instance of each shape is always the widest one)
                     for k in range(1, ext["k"]):
                         for m in (rng.randint(0, 1), rng.randint(11, nc - 1), rng.randint(11, nc - 1)):
                             rows.setdefault(m, {})[k] = rng.randint(1, 2)
